@@ -147,6 +147,10 @@ def part_a(ctx):
                             elif not isinstance(f[7], int) or micros_since_epoch(*f) != micros_since_epoch(*date, us, off):
                                 ctx.prop_fail('%s: round trip changes the instant' % kind, case, finding)
                     dtl = cdt(*date, us, off)
+                    if len(exprs) % 7 == 0:
+                        # the theorem's hypotheses, as evaluated by Coq, select the same cases as the harness
+                        exprs.append('Bool.eqb (valid_dt %s && in_domain %s %s) %s' % (dtl, K, dtl, coqio.cbool(dom)))
+                        meta.append(dict(case, cmp='theorem-hypotheses', finding=None))
                     exprs.append('text_eqb (from_dt %s %s) %s' % (K, dtl, ctext(text)))
                     meta.append(dict(case, cmp='from_dt', finding=finding))
                     rl = cres_dt(back)
